@@ -206,11 +206,32 @@ func c05FeldmanDealing[E algebra.PrimeGroupElement[E, S], S algebra.PrimeFieldEl
 		col, _ := columnOfPoints(group, pts)
 		_, err := feldman.NewVerificationVector(col, m)
 		env.Check("C05.b/extended-vector-refused-by-constructor", err != nil, "verification vector of length D+1 accepted by NewVerificationVector")
+		// ReconstructAndVerify must not hand out a secret when the shares cannot be verified: with a
+		// vector of the wrong length, and with a δ-shifted share under the right vector
+		quorumShares := func() (out []*kw.Share[S]) {
+			for _, A := range minimalQualified(as, pol.IDs) {
+				for _, id := range A {
+					if sh, ok := o1.Shares().Get(id); ok {
+						out = append(out, sh)
+					}
+				}
+				return out
+			}
+			return nil
+		}()
+		recRefused := func(id string, V *feldman.VerificationVector[E, S], shs []*kw.Share[S]) {
+			if len(shs) == 0 {
+				return
+			}
+			err := noPanicErr(func() error { _, err := scheme.ReconstructAndVerify(V, shs...); return err })
+			env.Check(id, err != nil, "ReconstructAndVerify returned a secret")
+		}
 		if ext, err := feldman.NewVerificationVector(col, nil); err == nil {
 			for _, id := range ids {
 				sh1, _ := o1.Shares().Get(id)
 				env.Check("C05.b/extended-vector-rejected-by-verify", noPanicErr(func() error { return scheme.Verify(sh1, ext) }) != nil, "verification vector extended by the identity accepted by Verify")
 			}
+			recRefused("C05.b/extended-vector-rejected-by-reconstruct-and-verify", ext, quorumShares)
 		}
 		if D > 1 {
 			colS, _ := columnOfPoints(group, pts[:D-1])
@@ -219,6 +240,18 @@ func c05FeldmanDealing[E algebra.PrimeGroupElement[E, S], S algebra.PrimeFieldEl
 					sh1, _ := o1.Shares().Get(id)
 					env.Check("C05.b/truncated-vector-rejected-by-verify", noPanicErr(func() error { return scheme.Verify(sh1, short) }) != nil, "truncated verification vector accepted by Verify")
 				}
+				recRefused("C05.b/truncated-vector-rejected-by-reconstruct-and-verify", short, quorumShares)
+			}
+		}
+		if len(quorumShares) > 0 {
+			rec, err := scheme.ReconstructAndVerify(V1, quorumShares...)
+			if env.Check("C05.d/reconstruct-and-verify accepts the dealer's shares", err == nil, fmt.Sprint(err)) {
+				env.Valid("C05.d/reconstruct-and-verify returns the dealt secret", env.EqF(rec.Value(), s1))
+			}
+			vals := append([]S(nil), quorumShares[0].Value()...)
+			vals[0] = vals[0].Add(delta)
+			if badSh, err := kw.NewShare(quorumShares[0].ID(), vals...); err == nil {
+				recRefused("C05.d/reconstruct-and-verify refuses a share shifted by δ≠0", V1, append([]*kw.Share[S]{badSh}, quorumShares[1:]...))
 			}
 		}
 	}
